@@ -20,9 +20,13 @@ def _to_list(val: Union['Task', Iterable['Task']]) -> List['Task']:
         raise RuntimeError("Unsupported type", type(val))
 
 
+# noinspection PyProtectedMember
 def _find_root(task: 'Task'):
-    if task.parent is not None:
-        return _find_root(task.parent)
+    # Climb to the real top of the tree: for WBS members it is the hidden WBS root,
+    # so that ids are compared with the whole WBS, not only with one root-level subtree
+    parent = task._raw_parent()
+    if parent is not None:
+        return _find_root(parent)
     return task
 
 
@@ -676,6 +680,9 @@ class Task:
 
         for k, v in kwargs.items():
             self.__setattr__(k, v)
+
+    def _raw_parent(self) -> Optional['Task']:
+        return self.__parent
 
     def _attach(self, wbs: 'WBS'):
         if wbs is None:
